@@ -158,7 +158,11 @@ func (s *Solver) Check() Verdict {
 	t0 := time.Now()
 	out := s.roundtrip("(check-sat)")
 	s.Queries++
-	s.Time += time.Since(t0)
+	d := time.Since(t0)
+	s.Time += d
+	if d > 2*time.Second && progress {
+		fmt.Fprintf(os.Stderr, "[slow query %.1fs]\n", d.Seconds())
+	}
 	v := Unknown
 	for _, l := range out {
 		if strings.HasPrefix(l, "(error") {
